@@ -68,8 +68,9 @@ def main():
 
             res = {"name": name, "verdict": "ERROR", "error": f"{type(e).__name__}: {e}\n{traceback.format_exc(limit=8)}"[-2000:], "paths": 0, "hist": {}, "wall_s": round(time.time() - t0, 2)}
         res["module"] = module
+        text = json.dumps(res, default=repr)  # serialise completely BEFORE touching the file (no truncated results)
         with open(outfile, "w") as f:
-            json.dump(res, f)
+            f.write(text)
         return
     if cmd == "replay":
         module, tier, name, prop = sys.argv[2:6]
